@@ -350,6 +350,75 @@ def h4_truncate(timeout=300, part=None, **kw):
                          int_lo=0, int_hi=len(data))
 
 
+# ---- the same seed document stored the PDF 1.5 way: objects inside an object stream, cross-reference stream
+OBJSTM_FAULTS = [("N", v) for v in (0, 1, "less", "more", 1000, -1, "name", None)] + [("First", v) for v in (0, "less", "more", 100000, -1, "name", None)] + \
+                [("Type", "XRef"), ("Type", None), ("Filter", "ASCIIHexDecode"), ("Filter", "Nonsense")]
+XREF_FAULTS = [("W", v) for v in ([0, 3, 1], [1, 0, 1], [1, 3, 0], [1, 3], [], [1, 3, 1, 1], ["A", 3, 1], 7, [1, 3000000, 1], [-1, 3, 1])] + \
+              [("Index", v) for v in ([], [0], [0, 100000], [5, -1], ["A", 2], 7, [0, 1, 0, 1])] + [("Size", v) for v in (0, -1, "name", None)] + [("Type", None), ("Root", None), ("Prev", 0), ("Prev", 10 ** 9), ("Prev", "self")]
+
+
+def _packed_doc(objstm_fault=None, xref_fault=None):
+    objs = seed_objects()
+    rev = {"objs": objs, "form": "stream", "packed": {n for n, o in objs.items() if not isinstance(o, Stream)}, "objstm_fault": objstm_fault, "xref_fault": xref_fault}
+    return pdfgen.build_history([rev])
+
+
+def _dict_fault(key, v):
+    def f(d, data):
+        d = dict(d)
+        cur = d.get(key)
+        if v is None:
+            d.pop(key, None)
+        elif v == "less":
+            d[key] = cur - 1
+        elif v == "more":
+            d[key] = cur + 1
+        elif v == "self":
+            d[key] = 9                       # a byte offset inside the header: not a cross-reference section
+        else:
+            d[key] = v
+        return d, data
+    return f
+
+
+def h4_objstm(timeout=300, part=None, **kw):
+    """damage to the PDF 1.5 containers of the seed document: every truncation of the object-stream payload and of the cross-reference-stream payload,
+    ill-valued /N /First /W /Index /Size /Prev ...: extract_text terminates and raises nothing outside the library's family"""
+    good = _packed_doc()
+    lens = {}
+    _packed_doc(lambda d, data: (lens.__setitem__("o", len(data)), (d, data))[1], lambda d, data: (lens.__setitem__("x", len(data)), (d, data))[1])
+
+    def fn(ex):
+        kind = ex.choice(4, "kind")
+        if kind == 0:
+            n = ex.int("cut", 0, lens["o"]).__index__()
+            what, data = "object-stream payload cut to %d of %d bytes" % (n, lens["o"]), _packed_doc(objstm_fault=lambda d, p: (d, p[:n]))
+            info = {"kind": "ocut", "n": n}
+        elif kind == 1:
+            n = ex.int("cut", 0, lens["x"]).__index__()
+            what, data = "cross-reference-stream payload cut to %d of %d bytes" % (n, lens["x"]), _packed_doc(xref_fault=lambda d, p: (d, p[:n]))
+            info = {"kind": "xcut", "n": n}
+        elif kind == 2:
+            i = ex.choice(len(OBJSTM_FAULTS), "of")
+            k, v = OBJSTM_FAULTS[i]
+            what, data = "object stream /%s set to %r" % (k, v), _packed_doc(objstm_fault=_dict_fault(k, v))
+            info = {"kind": "odict", "n": i}
+        else:
+            i = ex.choice(len(XREF_FAULTS), "xf")
+            k, v = XREF_FAULTS[i]
+            what, data = "cross-reference stream /%s set to %r" % (k, v), _packed_doc(xref_fault=_dict_fault(k, v))
+            info = {"kind": "xdict", "n": i}
+        r = run_extract(data)
+        ex.require(r is None, "%s: %s" % (what, r), **info)
+
+    def conc(m, info):
+        return {"what": "objstm", "kind": info["kind"], "n": info["n"]}
+    from pdfminer import high_level
+    return core.run_symx("H4_faults", fn, [high_level.extract_text], {"seed": "the 8-object document with all non-stream objects inside one object stream and a cross-reference stream (%d bytes)" % len(good),
+                                                                       "faults": "every truncation of both payloads; %d object-stream and %d cross-reference-stream dictionary faults" % (len(OBJSTM_FAULTS), len(XREF_FAULTS))},
+                         timeout, concretize=conc, part=part, int_lo=0, int_hi=max(lens.values()) + 1)
+
+
 # ------------------------------------------------------------------------------------------ replay: through extract_text where possible
 def _doc_with_stream(attrs, payload):
     objs = seed_objects()
@@ -439,6 +508,18 @@ def replay(harness, inp):
         apply_fault(objs, tuple(inp["site"]), inp["kind"])
         r = run_extract(pdfgen.build(objs))
         return None if r is None else "seed document with object %d key /%s replaced by %s: %s" % (inp["site"][0], inp["site"][1], inp["kind"], r)
+    if what == "objstm":
+        k, n = inp["kind"], inp["n"]
+        if k == "ocut":
+            what2, data = "object-stream payload cut to %d bytes" % n, _packed_doc(objstm_fault=lambda d, p: (d, p[:n]))
+        elif k == "xcut":
+            what2, data = "cross-reference-stream payload cut to %d bytes" % n, _packed_doc(xref_fault=lambda d, p: (d, p[:n]))
+        elif k == "odict":
+            what2, data = "object stream /%s set to %r" % OBJSTM_FAULTS[n], _packed_doc(objstm_fault=_dict_fault(*OBJSTM_FAULTS[n]))
+        else:
+            what2, data = "cross-reference stream /%s set to %r" % XREF_FAULTS[n], _packed_doc(xref_fault=_dict_fault(*XREF_FAULTS[n]))
+        r = run_extract(data)
+        return None if r is None else "seed document stored in an object stream + cross-reference stream, %s: %s" % (what2, r)
     if what == "truncate":
         data = pdfgen.build(seed_objects())
         r = run_extract(data[:inp["cut"]])
@@ -459,4 +540,6 @@ def jobs(tier):
         J.append(Job("H4_faults:%d" % k, "h4_faults", {"part": [k, 4, 6]}, 300, "H4_faults"))
     for k in range(2):
         J.append(Job("H4_truncate:%d" % k, "h4_truncate", {"part": [k, 2, 5]}, 300, "H4_faults"))
+    for k in range(2):
+        J.append(Job("H4_objstm:%d" % k, "h4_objstm", {"part": [k, 2, 5]}, 300, "H4_faults"))
     return J
